@@ -59,7 +59,14 @@ def step (d : DS) (line : String) : DS × String :=
     -- the model's index over the directory (a set); sorted only for printing
     let names := (listing d.cfg snappyDecoder crc32 fs).mergeSort bytesLe
     let ns := if names.isEmpty then "none" else ",".intercalate (names.map hex)
-    (d, s!"listing total={fs.length} scanned={scanned} errors={fs.length - scanned} names={ns}")
+    -- distinct (sanctuary, realm) pairs of the listed names
+    let sr := names.foldl (fun acc n =>
+      let i1 := (n.takeWhile (· != 0x2f)).length
+      let rest := n.drop (i1 + 1)
+      let i2 := (rest.takeWhile (· != 0x2f)).length
+      let key := n.take (i1 + 1 + i2)
+      if acc.contains key then acc else key :: acc) ([] : List Bytes)
+    (d, s!"listing total={fs.length} scanned={scanned} errors={fs.length - scanned} names={ns} paged=ok realms={sr.length} detail=ok")
   | _ => (d, "bad-op")
 
 def run (args : List String) : IO UInt32 := do
